@@ -19,7 +19,7 @@ RULE = ("case = (client stack: Client / PooledClient / HashClient with 1-3 serve
         "positionally, defaults being fresh sentinel objects; and a failure: every socket-level fault at every socket "
         "event and every reply tampering at every reply of the fault-free call (positions from a dry run), a raising "
         "deserialiser, an item whose bytes the serializer cannot decode, every server refusing / timing out / resetting, "
-        "a HashClient inside its retry window and with every server dead. Oracle (differential): the same call on a "
+        "a HashClient inside its retry window, with every server dead, and through an outage that outlasts dead_timeout several times (servers brought back, failing again, brought back again). Oracle (differential): the same call on a "
         "healthy empty server gives `miss`, on a healthy server holding the keys gives `hit`; under the failure the "
         "call must not raise and must return miss - same shape, the same default objects by identity (defaults that are callables - a class, a function, dict, list - included: they are handed back, not called) - or, when the "
         "fault turned out harmless, the genuine hit; afterwards (clock advanced past two dead_timeouts) set+get on the "
@@ -136,9 +136,9 @@ def check(case):
     with virtual_time(env.clock):
         fn = build_call(c, call, D, C)
         pre = 0
-        if ftype in ("retry-window", "all-dead"):
+        if ftype in ("retry-window", "all-dead", "dead-again"):
             for srv in env.servers:
-                srv.down = "refused"
+                srv.down = failure.get("what", "refused")
             # one failing call per server puts every server into the failed (or, with retry_attempts=0, dead) state
             for k in ["t", "n", "zz", "q", "a", "b", "c", "d", "e", "f"]:
                 env.call(c.get, k)
@@ -153,8 +153,20 @@ def check(case):
             if case.get("warm"):
                 env.call(c.get, "warm-up")          # the connection exists before the failing call
             net.plan([dict(f, call=env.ncalls) for f in failure["faults"]])
+        if ftype == "dead-again":
+            # the servers stay down: they are brought back after dead_timeout, fail again, are brought back again ...
+            # every read on the way is a miss like the first
+            for gap in failure.get("gaps", (61, 0, 2, 61, 0, 130)):
+                env.clock.advance(gap)
+                rr = env.call(fn)
+                pre += 1
+                if rr[0] != "ok":
+                    raise Violation(["raised", kind, call["op"], type(rr[1]).__name__, "dead-again"], "raised %r instead of returning a miss (read number %d of an outage that outlasts dead_timeout): %s" % (rr[1], pre, desc))
+                if not same_miss(rr[1], miss):
+                    raise Violation(["shape", kind, call["op"], "dead-again"], "returned %s, a miss returns %s (read number %d of an outage that outlasts dead_timeout): %s"
+                                    % (_show(rr[1], D, C), _show(miss, D, C), pre, desc))
         r = env.call(fn)
-        fired = bool([x for x in net.fired if x["fault"].get("call") == env.ncalls - 1 or x["fault"].get("server_down")]) or ftype in ("serde", "retry-window", "all-dead")
+        fired = bool([x for x in net.fired if x["fault"].get("call") == env.ncalls - 1 or x["fault"].get("server_down")]) or ftype in ("serde", "retry-window", "all-dead", "dead-again")
         if r[0] != "ok":
             raise Violation(["raised", kind, call["op"], type(r[1]).__name__], "raised %r instead of returning a miss: %s" % (r[1], desc))
         got = r[1]
@@ -166,7 +178,7 @@ def check(case):
                                 % (_show(got, D, C), _show(miss, D, C), _show(hit, D, C), desc))
         # 2b. what a failed multi-key read returns belongs to the caller: filling it in (the cache-aside step) must not
         #     show in what another failing call - on another client object - returns
-        if isinstance(got, dict) and not got and ftype in ("down", "all-dead", "retry-window"):
+        if isinstance(got, dict) and not got and ftype in ("down", "all-dead", "retry-window", "dead-again"):
             got["filled-in-by-the-caller"] = b"from the database"
             env2, c2 = setup(case, True, serde_mode)
             with virtual_time(env2.clock):
@@ -271,6 +283,9 @@ def sweep_cases(tier, seed):
                 yield dict(base, failure={"type": "retry-window"})
                 yield dict(base, cfg=dict(extra, retry_attempts=0), failure={"type": "all-dead"})
                 yield dict(base, cfg=dict(extra, retry_attempts=1), failure={"type": "retry-window"})
+                for ra in (0, 1, 2):
+                    yield dict(base, cfg=dict(extra, retry_attempts=ra), failure={"type": "dead-again", "what": ("refused", "timeout", "reset-recv")[(ra + ci) % 3]})
+                    yield dict(base, cfg=dict(extra, retry_attempts=ra), failure={"type": "dead-again", "gaps": [61, 1.5, 1.5, 61, 61, 0, 0], "what": "oserror"})
             # every socket event / reply of the fault-free call
             D, C = object(), object()
             env, c = setup(base, True)
